@@ -639,6 +639,14 @@ func (s *Scanner) scanSelectStatement(stmt *ast.SelectStatement, result *ScanRes
 	for _, col := range stmt.Columns {
 		s.scanExpression(col, result, "select list")
 	}
+
+	// Check GROUP BY and ORDER BY items (ORDER BY SLEEP(5) is a classic probe)
+	for _, gb := range stmt.GroupBy {
+		s.scanExpression(gb, result, "GROUP BY")
+	}
+	for i := range stmt.OrderBy {
+		s.scanExpression(stmt.OrderBy[i].Expression, result, "ORDER BY")
+	}
 }
 
 // scanInsertStatement analyzes INSERT for injection patterns.
@@ -985,6 +993,21 @@ func (s *Scanner) scanFunctionCall(fn *ast.FunctionCall, result *ScanResult) {
 	}
 	if fn.Filter != nil {
 		s.scanExpression(fn.Filter, result, "FILTER clause")
+	}
+	// ... and the expressions of its ORDER BY / WITHIN GROUP / OVER clauses
+	for i := range fn.OrderBy {
+		s.scanExpression(fn.OrderBy[i].Expression, result, "aggregate ORDER BY")
+	}
+	for i := range fn.WithinGroup {
+		s.scanExpression(fn.WithinGroup[i].Expression, result, "WITHIN GROUP")
+	}
+	if fn.Over != nil {
+		for _, part := range fn.Over.PartitionBy {
+			s.scanExpression(part, result, "PARTITION BY")
+		}
+		for i := range fn.Over.OrderBy {
+			s.scanExpression(fn.Over.OrderBy[i].Expression, result, "window ORDER BY")
+		}
 	}
 }
 
